@@ -187,7 +187,7 @@ EXTRA_NOTE = {
     "C03": "Rule (ab) also covers the root-statement dispatchers (package_info emits nothing) and the written-text obligation (no pass of the driver rewrites declarations or imports after the emitters). Rule (g) imports C01.m (a declaration is emitted under the name written in the source). Rule (f): the Tparams list of every declaration value is the declared list (explicit type arguments bind by position). " + Z % ("C03", "29 compiler functions that write emitted text"),
     "C06": "Rule (l): no function that finds a state's current token to be EOL steps (psNext) or peeks (psNextTT/psNextIs) a fixed number of tokens past it; only psSkipEOL looks beyond line ends. Rule (k): closed forms of the hand-written space scanner (a block comment runs to the first */). Rule (j): the state produced by consuming `=`, `with` or an expression-level `->` goes straight to psSkipEOL (14 sites, one frozen exception). " + Z % ("C06", "41 compiler functions that read a column, move the offside stack or skip line ends"),
     "C07": "Rule (k): an unnamed record literal is matched against a record type by its field names compared element by element (closed forms of recFacMatch, scLookupRecFacCur). Rule (j): the collector and the substitution that drive the forward-declaration loop have their reviewed closed forms (no placeholder survives its type group in the global info table). Rule (h): the scope tables are read only where a name is referenced (frozen who-may-read table). Rule (i): hoisted type parameters are named by position among the definition's own variables. PAIR.own (binders of an expression sit at depth >= 1 relative to the nearest enclosing entry of the expression parser) and PAIR.tparam (type-parameter names never land in the root scope) were added after seeded variants; the pin of transpileOne masks the written content (decided by C16.b/C05.f). " + Z % ("C07", "49 compiler functions that read or write a scope, the type-definition context or a global dictionary"),
-    "C09": "Rule (i) imports the scope discipline (PAIR): the target of a match is the variable lexical scoping gives it. Rule (h): every pass that rebuilds a union's case list hands on an element-wise image of it. " + Z % ("C09", "13 compiler functions between a match expression and the exhaustiveness diagnostic"),
+    "C09": "Rule (j): the key of the global union/record info table is Name, a separator, the printed type arguments joined by it — also without arguments (closed forms of encodedKey/uniToKey/rtToKey): the case table exaustiveCheck reads is the entry of this union. Rule (i) imports the scope discipline (PAIR): the target of a match is the variable lexical scoping gives it. Rule (h): every pass that rebuilds a union's case list hands on an element-wise image of it. " + Z % ("C09", "13 compiler functions between a match expression and the exhaustiveness diagnostic"),
     "C15": "Rule (j): every recursive traversal of the type structure (match on FType with a default arm, descending into composite constructors) has an arm for each of FFunc, FParamd, FRecord, FSlice, FTuple, FUnion. Rule (i): generic instantiation closed forms (GenType/GenRecordType/GenUnionType/tpreplace). " + Z % ("C15", "33 compiler functions that construct or print a type expression"),
     "C04": "Rule (i): every unqualified record literal has the field names of exactly one record type of its program; no composite literal of a generated file has an elided type; no generated file has a comment (while the compiler holds no comment text). Rule (z) is change detection on the emitter modules: rules (b)-(h) model the output of the reviewed emitters, so after an emitter change whether everything was regenerated is undecided. Rule (h): the _vN switch temporaries of every generated file are numbered in file order (what the emission counter yields). Rule (lex) is change detection on fc's hand-written lexer, against which the checker's own tokenizer was written. Rule (c3): the ordered skeleton of every definition (identifiers outside type positions, operators, literals, if/match/not/pipe) agrees between source and generated Go, the compiler's own additions set aside; it sees operands, argument order, locals, fields and operators edited on one side only (grouping and type annotations are still not compared). Rule (g) — every file fc reads is a sequence of well-formed top-level items on the checker's own token stream (block comments end at the first */ as in fc's lexer; no stray text in column 0, no stray */, package_info bodies are declaration lines) — and rule (c2) — referenced functions and union cases per definition agree — were added after seeded variants.",
     "C05": "Rule (g), added after a seeded variant: the console wrappers fc uses for progress lines forward to fmt and ignore its result (stdout cannot decide the run). Rule (f), added after a seeded variant: the content handed to sys.WriteFile mentions a path parameter only inside sys.ReadFile(.) or filepath.Base(.), so the same files under another path spelling or working directory give the same bytes.",
